@@ -96,6 +96,11 @@
 //!              `for v in map.values_mut()` (BTreeMap; a HashMap only under the manifest whitelist
 //!              HASHMAP_VALUES_MUT_OK and the check that the body touches nothing but its own value);
 //!              `btree.range(r)` with a `Range<u64>` value
+//!   stage 7    (RenetServer) unit structs; `#[derive(Clone)]` → `clone()` identity on translated types; `&mut T` parameters of a
+//!              translated struct type; `impl Iterator<Item = T>` return types (lists, eager); `filter` closures that call
+//!              translated fns (`RustSem.filterM`); `match map.get_mut(&k) { Some(x) => .., None => .. }`; HashMap
+//!              `iter_mut()` / `values_mut()` with `continue` under HASHMAP_VALUES_MUT_OK; read-only HashMap `iter()` chains
+//!              under HASHMAP_ITER_ORDER_OK (order-independent, or claimed up to permutation)
 //!   not supported: `loop`, valued `break`, closures other than the pure `map` / `or_insert_with` ones, generics, traits, signed integers, floats,
 //!              references stored in data, `ref mut`, `&mut` parameters other than `self`, unsigned integers and the
 //!              octets / io cursors.
